@@ -10,8 +10,10 @@ strictly increasing order of their variable sets (hence each at most once), and 
 the function (so converting back gives the function).  The loop invariant is the one of
 DESIGN.md: after all i' < k are processed, position m of the working table holds
 `f m xor #{emitted T : T a proper subset of m}`.
-TARGET (not yet proved): the emitted set is exactly {S : ANF coefficient of S is 1}
-(the Moebius identity); the differential run and the ANF oracle cover it on the real code.
+`fromLut_anf`: the emitted cubes are exactly the monomials S whose ANF coefficient (the XOR of f
+over the assignments contained in S) is 1, each once - from the uniqueness of duplicate-free
+positive ESOPs (`positive_esop_unique`) and Moebius inversion over GF(2) (`mobius`);
+`fromLut_canonical`: equal functions give equal Esops.
 -/
 
 namespace VoluteModel.Props.C15
@@ -465,5 +467,421 @@ theorem isOne_sound (s : Esop) (h : s.isOne = true) (m : Nat) : s.value m = true
 
 /-- non-vacuity: the Reed-Muller form of majority-3 is x0x1 ^ x0x2 ^ x1x2 -/
 example : Esop.fromLut ⟨3, #[0xe8#64]⟩ = ⟨3, [cubeOf 3, cubeOf 5, cubeOf 6]⟩ := by decide +kernel
+
+/-! ## canonicity: a function has exactly one duplicate-free set of positive cubes -/
+
+theorem sub_le (S a : Nat) (h : subB S a = true) : S ≤ a := by
+  unfold subB at h
+  have h' : S &&& a = S := by simpa using h
+  rw [← h']
+  exact Nat.and_le_right
+
+/-- no cube of a list of larger indices is contained in `a` -/
+theorem X_above (L : List Nat) (a : Nat) (h : ∀ S ∈ L, a < S) : X L (fun S => subB S a) = false := by
+  induction L with
+  | nil => rfl
+  | cons s L ih =>
+    rw [X_cons, ih (fun S hS => h S (by simp [hS]))]
+    have : subB s a = false := by
+      cases hb : subB s a
+      · rfl
+      · have := sub_le s a hb
+        have := h s (by simp)
+        omega
+    rw [this]; rfl
+
+theorem subB_self (a : Nat) : subB a a = true := by simp [subB]
+
+/-- two strictly increasing lists of positive cubes with the same XOR on every assignment below
+    2^n are the same list -/
+theorem positive_esop_unique (n : Nat) (E E' : List Nat) (hs : E.Pairwise (· < ·)) (hs' : E'.Pairwise (· < ·))
+    (hb : ∀ T ∈ E, T < 2 ^ n) (hb' : ∀ T ∈ E', T < 2 ^ n)
+    (h : ∀ m, m < 2 ^ n → X E (fun S => subB S m) = X E' (fun S => subB S m)) : E = E' := by
+  induction E generalizing E' with
+  | nil =>
+    cases E' with
+    | nil => rfl
+    | cons b E1' =>
+      exfalso
+      have := h b (hb' b (by simp))
+      rw [X_cons, subB_self, X_above E1' b (fun S hS => List.rel_of_pairwise_cons hs' hS)] at this
+      cases this
+  | cons a E1 ih =>
+    cases E' with
+    | nil =>
+      exfalso
+      have := h a (hb a (by simp))
+      rw [X_cons, subB_self, X_above E1 a (fun S hS => List.rel_of_pairwise_cons hs hS)] at this
+      cases this
+    | cons b E1' =>
+      have ha : ∀ S, S ∈ E1 → a < S := fun S hS => List.rel_of_pairwise_cons hs hS
+      have hb1 : ∀ S, S ∈ E1' → b < S := fun S hS => List.rel_of_pairwise_cons hs' hS
+      have hab : a = b := by
+        rcases Nat.lt_trichotomy a b with hlt | heq | hgt
+        · exfalso
+          have := h a (hb a (by simp))
+          rw [X_cons, subB_self, X_above E1 a ha,
+            X_above (b :: E1') a (by
+              intro S hS
+              rcases List.mem_cons.mp hS with rfl | hS
+              · exact hlt
+              · exact Nat.lt_trans hlt (hb1 S hS))] at this
+          cases this
+        · exact heq
+        · exfalso
+          have := h b (hb' b (by simp))
+          rw [X_cons (a := b), subB_self, X_above E1' b hb1,
+            X_above (a :: E1) b (by
+              intro S hS
+              rcases List.mem_cons.mp hS with rfl | hS
+              · exact hgt
+              · exact Nat.lt_trans hgt (ha S hS))] at this
+          cases this
+      subst hab
+      congr 1
+      apply ih E1' (List.Pairwise.of_cons hs) (List.Pairwise.of_cons hs')
+        (fun T hT => hb T (by simp [hT])) (fun T hT => hb' T (by simp [hT]))
+      intro m hm
+      have := h m hm
+      rw [X_cons, X_cons] at this
+      cases h1 : X E1 (fun S => subB S m) <;> cases h2 : X E1' (fun S => subB S m) <;> simp_all
+
+/-- **equal functions give equal Esops**: the conversion depends only on the function -/
+theorem fromLut_canonical (l1 l2 : Lut) (hn : l1.n = l2.n) (h1 : l1.t.size = tableSize l1.n)
+    (h2 : l2.t.size = tableSize l2.n) (h32 : l1.n ≤ 32)
+    (heq : ∀ m, m < 2 ^ l1.n → l1.eval m = l2.eval m) : Esop.fromLut l1 = Esop.fromLut l2 := by
+  obtain ⟨E1, c1, n1, s1, b1, v1⟩ := fromLut_spec l1 h1 h32
+  obtain ⟨E2, c2, n2, s2, b2, v2⟩ := fromLut_spec l2 h2 (by omega)
+  have hp : 2 ^ l1.n ≤ 2 ^ 32 := Nat.pow_le_pow_right (by omega) h32
+  have key : E1 = E2 := by
+    apply positive_esop_unique l1.n E1 E2 s1 s2 b1 (by rw [hn]; exact b2)
+    intro m hm
+    have a := v1 m hm
+    have b := v2 m (by rw [← hn]; exact hm)
+    have e1 : (Esop.fromLut l1).value m = X E1 (fun S => subB S m) := by
+      have : Esop.fromLut l1 = ⟨(Esop.fromLut l1).n, E1.map cubeOf⟩ := by rw [← c1]
+      rw [this, esop_value_X]
+      apply X_congr
+      intro T hT
+      exact cubeOf_value T m (by have := b1 T hT; omega) (by omega)
+    have e2 : (Esop.fromLut l2).value m = X E2 (fun S => subB S m) := by
+      have : Esop.fromLut l2 = ⟨(Esop.fromLut l2).n, E2.map cubeOf⟩ := by rw [← c2]
+      rw [this, esop_value_X]
+      apply X_congr
+      intro T hT
+      exact cubeOf_value T m (by have := b2 T hT; rw [← hn] at this; omega) (by omega)
+    rw [← e1, ← e2, a, b, heq m hm]
+  have : ∀ e e' : Esop, e.n = e'.n → e.cubes = e'.cubes → e = e' := by
+    intro e e' ha hb; cases e; cases e'; simp_all
+  exact this _ _ (by rw [n1, n2, hn]) (by rw [c1, c2, key])
+
+/-! ## the closed form: the emitted cubes are the monomials of the algebraic normal form -/
+
+/-- the subsets of m among the variables 0..i-1 (as numbers), m's own low part last -/
+def subs : Nat → Nat → List Nat
+  | 0, _ => [0]
+  | i + 1, m => if m.testBit i then subs i m ++ (subs i m).map (· + 2 ^ i) else subs i m
+
+/-- XOR of a Boolean function over a list of indices (`X` with the function as predicate) -/
+theorem X_append (A B : List Nat) (P : Nat → Bool) : X (A ++ B) P = (X A P != X B P) := by
+  induction A with
+  | nil => simp [X]
+  | cons a A ih =>
+    rw [List.cons_append, X_cons, X_cons, ih]
+    cases P a <;> cases X A P <;> cases X B P <;> rfl
+
+theorem X_map (A : List Nat) (g : Nat → Nat) (P : Nat → Bool) : X (A.map g) P = X A (fun T => P (g T)) := by
+  induction A with
+  | nil => rfl
+  | cons a A ih => rw [List.map_cons, X_cons, X_cons, ih]
+
+theorem X_xor (A : List Nat) (P Q : Nat → Bool) : X A (fun T => P T != Q T) = (X A P != X A Q) := by
+  induction A with
+  | nil => rfl
+  | cons a A ih =>
+    rw [X_cons, X_cons, X_cons, ih]
+    cases P a <;> cases Q a <;> cases X A P <;> cases X A Q <;> rfl
+
+theorem subs_lt (i m : Nat) : ∀ T ∈ subs i m, T < 2 ^ i := by
+  induction i with
+  | zero => intro T hT; simp [subs] at hT; omega
+  | succ i ih =>
+    intro T hT
+    simp only [subs] at hT
+    have hp : 2 ^ (i + 1) = 2 ^ i + 2 ^ i := by rw [Nat.pow_succ]; omega
+    split at hT
+    · rcases List.mem_append.mp hT with h | h
+      · have := ih T h; omega
+      · obtain ⟨T', hT', rfl⟩ := List.mem_map.mp h
+        have := ih T' hT'; omega
+    · have := ih T hT; omega
+
+/-- the ANF coefficient of the monomial T: XOR of f over the assignments contained in T -/
+def anf (n : Nat) (f : Nat → Bool) (T : Nat) : Bool := X (subs n T) f
+
+/-- `subs` only looks at the bits below i -/
+theorem subs_congr (i m m' : Nat) (h : ∀ k, k < i → m.testBit k = m'.testBit k) : subs i m = subs i m' := by
+  induction i with
+  | zero => rfl
+  | succ i ih =>
+    simp only [subs]
+    rw [h i (by omega), ih (fun k hk => h k (by omega))]
+
+theorem testBit_add_pow_low (T i k : Nat) (hT : T < 2 ^ i) (hk : k < i) : (T + 2 ^ i).testBit k = T.testBit k := by
+  rw [Nat.add_comm, Nat.testBit_two_pow_add_gt hk]
+
+theorem testBit_add_pow_self (T i : Nat) (hT : T < 2 ^ i) : (T + 2 ^ i).testBit i = true := by
+  rw [Nat.add_comm, Nat.testBit_two_pow_add_eq]
+  simp [Nat.testBit_lt_two_pow hT]
+
+/-- Moebius inversion over GF(2), by induction on the number of variables: the XOR over the
+    subsets T of m of the coefficients is f m -/
+theorem mobius (i : Nat) (f : Nat → Bool) (m : Nat) (hm : m < 2 ^ i) :
+    X (subs i m) (fun T => X (subs i T) f) = f m := by
+  induction i generalizing f m with
+  | zero =>
+    have : m = 0 := by omega
+    subst this
+    simp [subs, X]
+  | succ i ih =>
+    have hp : 2 ^ (i + 1) = 2 ^ i + 2 ^ i := by rw [Nat.pow_succ]; omega
+    by_cases hb : m.testBit i = true
+    · -- m = m' + 2^i
+      have hge : 2 ^ i ≤ m := Nat.ge_two_pow_of_testBit hb
+      have hm' : m - 2 ^ i < 2 ^ i := by omega
+      have hmm : m = (m - 2 ^ i) + 2 ^ i := by omega
+      have hsub : subs i m = subs i (m - 2 ^ i) := by
+        apply subs_congr
+        intro k hk
+        have := testBit_add_pow_low (m - 2 ^ i) i k hm' hk
+        rw [← hmm] at this
+        exact this
+      simp only [subs, hb, if_true]
+      rw [X_append, X_map]
+      -- low part: T < 2^i has bit i clear
+      have low : X (subs i m) (fun T => X (if T.testBit i then subs i T ++ (subs i T).map (· + 2 ^ i) else subs i T) f) =
+          X (subs i m) (fun T => X (subs i T) f) := by
+        apply X_congr
+        intro T hT
+        have := subs_lt i m T hT
+        rw [Nat.testBit_lt_two_pow this]
+        simp
+      have high : X (subs i m) (fun T => X (if (T + 2 ^ i).testBit i then subs i (T + 2 ^ i) ++ (subs i (T + 2 ^ i)).map (· + 2 ^ i)
+            else subs i (T + 2 ^ i)) f) =
+          X (subs i m) (fun T => X (subs i T) f != X (subs i T) (fun k => f (k + 2 ^ i))) := by
+        apply X_congr
+        intro T hT
+        have hlt := subs_lt i m T hT
+        rw [testBit_add_pow_self T i hlt]
+        simp only [if_true]
+        have : subs i (T + 2 ^ i) = subs i T := by
+          apply subs_congr
+          intro k hk
+          exact testBit_add_pow_low T i k hlt hk
+        rw [this, X_append, X_map]
+      rw [low, high, X_xor]
+      rw [hsub, ih (fun k => f (k + 2 ^ i)) (m - 2 ^ i) hm']
+      have : m - 2 ^ i + 2 ^ i = m := by omega
+      rw [this]
+      cases X (subs i (m - 2 ^ i)) (fun T => X (subs i T) f) <;> cases f m <;> rfl
+    · have hb' : m.testBit i = false := by simpa using hb
+      have hlt : m < 2 ^ i := by
+        apply Nat.lt_pow_two_of_testBit
+        intro k hk
+        by_cases hki : k = i
+        · subst hki; exact hb'
+        · exact Nat.testBit_lt_two_pow (Nat.lt_of_lt_of_le hm (Nat.pow_le_pow_right (by omega) (by omega)))
+      simp only [subs, hb', Bool.false_eq_true, if_false]
+      have low : X (subs i m) (fun T => X (if T.testBit i then subs i T ++ (subs i T).map (· + 2 ^ i) else subs i T) f) =
+          X (subs i m) (fun T => X (subs i T) f) := by
+        apply X_congr
+        intro T hT
+        have := subs_lt i m T hT
+        rw [Nat.testBit_lt_two_pow this]
+        simp
+      rw [low]
+      exact ih f m hlt
+
+/-! ## membership in `subs`, and the set of ANF monomials as a list -/
+
+theorem mem_subs (i m T : Nat) : T ∈ subs i m ↔ T < 2 ^ i ∧ ∀ k, k < i → T.testBit k = true → m.testBit k = true := by
+  induction i generalizing T with
+  | zero =>
+    simp only [subs, List.mem_singleton, Nat.pow_zero]
+    constructor
+    · rintro rfl; exact ⟨by omega, fun k hk => by omega⟩
+    · rintro ⟨h, _⟩; omega
+  | succ i ih =>
+    have hp : 2 ^ (i + 1) = 2 ^ i + 2 ^ i := by rw [Nat.pow_succ]; omega
+    simp only [subs]
+    by_cases hb : m.testBit i = true
+    · simp only [hb, if_true, List.mem_append, List.mem_map]
+      constructor
+      · rintro (h | ⟨T', hT', rfl⟩)
+        · obtain ⟨h1, h2⟩ := (ih T).mp h
+          refine ⟨by omega, ?_⟩
+          intro k hk hbit
+          by_cases hki : k = i
+          · subst hki; exact hb
+          · exact h2 k (by omega) hbit
+        · obtain ⟨h1, h2⟩ := (ih T').mp hT'
+          refine ⟨by omega, ?_⟩
+          intro k hk hbit
+          by_cases hki : k = i
+          · subst hki; exact hb
+          · rw [testBit_add_pow_low T' i k h1 (by omega)] at hbit
+            exact h2 k (by omega) hbit
+      · rintro ⟨h1, h2⟩
+        by_cases hTi : T.testBit i = true
+        · right
+          have hge : 2 ^ i ≤ T := Nat.ge_two_pow_of_testBit hTi
+          have hlt' : T - 2 ^ i < 2 ^ i := by omega
+          refine ⟨T - 2 ^ i, (ih (T - 2 ^ i)).mpr ⟨hlt', ?_⟩, by omega⟩
+          intro k hk hbit
+          have := testBit_add_pow_low (T - 2 ^ i) i k hlt' hk
+          rw [show T - 2 ^ i + 2 ^ i = T by omega] at this
+          rw [← this] at hbit
+          exact h2 k (by omega) hbit
+        · left
+          have hTi' : T.testBit i = false := by simpa using hTi
+          have hlt : T < 2 ^ i := by
+            apply Nat.lt_pow_two_of_testBit
+            intro k hk
+            by_cases hki : k = i
+            · subst hki; exact hTi'
+            · exact Nat.testBit_lt_two_pow (Nat.lt_of_lt_of_le h1 (Nat.pow_le_pow_right (by omega) (by omega)))
+          exact (ih T).mpr ⟨hlt, fun k hk hbit => h2 k (by omega) hbit⟩
+    · have hb' : m.testBit i = false := by simpa using hb
+      simp only [hb', Bool.false_eq_true, if_false]
+      constructor
+      · intro h
+        obtain ⟨h1, h2⟩ := (ih T).mp h
+        refine ⟨by omega, ?_⟩
+        intro k hk hbit
+        by_cases hki : k = i
+        · subst hki
+          rw [Nat.testBit_lt_two_pow h1] at hbit; cases hbit
+        · exact h2 k (by omega) hbit
+      · rintro ⟨h1, h2⟩
+        have hTi' : T.testBit i = false := by
+          cases hq : T.testBit i
+          · rfl
+          · have := h2 i (by omega) hq
+            rw [hb'] at this; cases this
+        have hlt : T < 2 ^ i := by
+          apply Nat.lt_pow_two_of_testBit
+          intro k hk
+          by_cases hki : k = i
+          · subst hki; exact hTi'
+          · exact Nat.testBit_lt_two_pow (Nat.lt_of_lt_of_le h1 (Nat.pow_le_pow_right (by omega) (by omega)))
+        exact (ih T).mpr ⟨hlt, fun k hk hbit => h2 k (by omega) hbit⟩
+
+theorem subs_nodup (i m : Nat) : (subs i m).Nodup := by
+  induction i with
+  | zero => simp [subs]
+  | succ i ih =>
+    simp only [subs]
+    split
+    · rw [List.nodup_append]
+      refine ⟨ih, ?_, ?_⟩
+      · unfold List.Nodup
+        rw [List.pairwise_map]
+        exact ih.imp (fun hne e => hne (by omega))
+      · intro a ha b hb
+        obtain ⟨b', hb', rfl⟩ := List.mem_map.mp hb
+        have := subs_lt i m a ha
+        omega
+    · exact ih
+
+theorem subB_iff_bits (T m : Nat) : subB T m = true ↔ ∀ k, T.testBit k = true → m.testBit k = true := by
+  unfold subB
+  simp only [decide_eq_true_eq]
+  constructor
+  · intro h k hk
+    have := congrArg (fun v => v.testBit k) h
+    simp only [Nat.testBit_and, hk, Bool.true_and] at this
+    exact this
+  · intro h
+    apply Nat.eq_of_testBit_eq
+    intro k
+    rw [Nat.testBit_and]
+    cases hk : T.testBit k
+    · rfl
+    · simp [h k hk]
+
+theorem X_perm (A B : List Nat) (P : Nat → Bool) (h : A.Perm B) : X A P = X B P := by
+  induction h with
+  | nil => rfl
+  | cons a _ ih => rw [X_cons, X_cons, ih]
+  | swap a b l =>
+    rw [X_cons, X_cons, X_cons, X_cons]
+    cases P a <;> cases P b <;> cases X l P <;> rfl
+  | trans _ _ ih1 ih2 => rw [ih1, ih2]
+
+theorem X_filter (A : List Nat) (q P : Nat → Bool) : X (A.filter q) P = X A (fun T => q T && P T) := by
+  induction A with
+  | nil => rfl
+  | cons a A ih =>
+    rw [List.filter_cons]
+    by_cases hq : q a = true
+    · rw [if_pos hq, X_cons, X_cons, ih, hq]; simp
+    · have hq' : q a = false := by simpa using hq
+      rw [if_neg hq, X_cons, ih, hq']; simp
+
+/-- XOR over the numbers below 2^n that are subsets of m = XOR over `subs n m` -/
+theorem X_range_subs (n m : Nat) (hm : m < 2 ^ n) (g : Nat → Bool) :
+    X (List.range (2 ^ n)) (fun T => subB T m && g T) = X (subs n m) g := by
+  rw [← X_filter]
+  apply X_perm
+  rw [List.perm_ext_iff_of_nodup (List.nodup_range.filter _) (subs_nodup n m)]
+  intro T
+  rw [List.mem_filter, List.mem_range, mem_subs, subB_iff_bits]
+  constructor
+  · rintro ⟨h1, h2⟩; exact ⟨h1, fun k _ hk => h2 k hk⟩
+  · rintro ⟨h1, h2⟩
+    refine ⟨h1, ?_⟩
+    intro k hk
+    by_cases hkn : k < n
+    · exact h2 k hkn hk
+    · rw [Nat.testBit_lt_two_pow (Nat.lt_of_lt_of_le h1 (Nat.pow_le_pow_right (by omega) (by omega)))] at hk
+      cases hk
+
+/-- the monomials of the algebraic normal form of f, in increasing order -/
+def anfList (n : Nat) (f : Nat → Bool) : List Nat := (List.range (2 ^ n)).filter (anf n f)
+
+theorem anfList_sorted (n : Nat) (f : Nat → Bool) : (anfList n f).Pairwise (· < ·) :=
+  (List.pairwise_lt_range).filter _
+
+theorem anfList_lt (n : Nat) (f : Nat → Bool) : ∀ T ∈ anfList n f, T < 2 ^ n := by
+  intro T hT
+  exact List.mem_range.mp (List.mem_filter.mp hT).1
+
+/-- the ANF monomials XOR to f (Moebius inversion) -/
+theorem anfList_value (n : Nat) (f : Nat → Bool) (m : Nat) (hm : m < 2 ^ n) :
+    X (anfList n f) (fun S => subB S m) = f m := by
+  unfold anfList
+  rw [X_filter]
+  have : (fun T => anf n f T && subB T m) = (fun T => subB T m && anf n f T) := by
+    funext T; exact Bool.and_comm _ _
+  rw [this, X_range_subs n m hm (anf n f)]
+  exact mobius n f m hm
+
+/-- **C15, exactness**: the cubes emitted by the conversion are exactly the positive cubes of
+    the monomials S whose ANF coefficient - the XOR of f over the assignments contained in S -
+    is 1, each once, in increasing order of S -/
+theorem fromLut_anf (l : Lut) (hl : l.t.size = tableSize l.n) (h32 : l.n ≤ 32) :
+    (Esop.fromLut l).cubes = (anfList l.n (fun m => l.eval m)).map cubeOf ∧ (Esop.fromLut l).n = l.n := by
+  obtain ⟨E, c1, n1, s1, b1, v1⟩ := fromLut_spec l hl h32
+  have hp : 2 ^ l.n ≤ 2 ^ 32 := Nat.pow_le_pow_right (by omega) h32
+  have key : E = anfList l.n (fun m => l.eval m) := by
+    apply positive_esop_unique l.n E _ s1 (anfList_sorted _ _) b1 (anfList_lt _ _)
+    intro m hm
+    rw [anfList_value l.n _ m hm, ← v1 m hm]
+    have : Esop.fromLut l = ⟨(Esop.fromLut l).n, E.map cubeOf⟩ := by rw [← c1]
+    rw [this, esop_value_X]
+    apply X_congr
+    intro T hT
+    exact (cubeOf_value T m (by have := b1 T hT; omega) (by omega)).symm
+  exact ⟨by rw [c1, key], n1⟩
 
 end VoluteModel.Props.C15
